@@ -85,7 +85,8 @@ def validate(ctx, merged, module='Outcome'):
     items = []
     for ex in merged['extra']:
         items.extend(ex.get('traces', []))
-    if merged['counters'].get('deviations_not_kept'):
+    # deviations beyond the cap were not judged: if none of the judged ones was rejected the run cannot conclude
+    if merged['counters'].get('deviations_not_kept') and not ctx.violations:
         raise common.MachineryError('too many deviating outcomes to validate (%d dropped)'
                                     % merged['counters']['deviations_not_kept'])
     if not items:
